@@ -60,6 +60,19 @@ def gen_world(rng, profile):
     for b in bufs:
         kind_of_ctx.setdefault(b["ctx"], b["kind"])
         b["kind"] = kind_of_ctx[b["ctx"]]
+    large = profile == "large"
+    if large:
+        # block-size boundaries: chunked transfers go wrong at powers of two
+        nctx = 2
+        bufs = [
+            {"ctx": b % 2, "kind": rng.choice(["numpy", "bytearray"]), "capacity": rng.choice([0, 4096, 65536, 131072, 262144]), "align": rng.choice([None, 1, 8, 64]), "grow_step": rng.choice([None, 1000, 65536])}
+            for b in range(rng.choice([2, 2, 3]))
+        ]
+        kind_of_ctx = {}
+        for b in bufs:
+            kind_of_ctx.setdefault(b["ctx"], b["kind"])
+            b["kind"] = kind_of_ctx[b["ctx"]]
+        tiny = False
     world = {
         "contexts": [{"omp": 0} for _ in range(nctx)],
         "buffers": bufs,
@@ -69,11 +82,14 @@ def gen_world(rng, profile):
             "max_live": rng.choice([3, 6, 6, 10]) if tiny else rng.choice([6, 12, 30]),
             "steps": rng.choice([5, 10, 20, 40, 80, 120]),
             "p_fill": rng.choice([0.0, 0.5, 1.0, 1.0]),
+            "large": large,
         },
         "fail_newbuf_at": {},
     }
+    if large:
+        world["switches"].update(steps=rng.choice([6, 10, 16]), max_live=4, p_fill=1.0)
     if profile == "alloc_fail":
-        for b in range(nbuf):
+        for b in range(len(bufs)):
             k = rng.choice([1, 2, 3])
             # ordinal 1 is the constructor's own call; fail later ones
             world["fail_newbuf_at"][str(b)] = sorted(rng.sample(range(2, 14), k))
@@ -140,6 +156,14 @@ class GenSource:
         live = w.live_regions()
         prof = self.profile
         r = rng.random()
+        if prof == "large":
+            if len(live) < 2 or (r < 0.25 and len(live) < self.sw["max_live"]):
+                return self._alloc(w)
+            if r < 0.3:
+                return self._free(w, live)
+            if r < 0.8:
+                return self._write(w, live)
+            return self._read(w, live)
         if prof == "primitives":
             if not live or (r < 0.15 and len(live) < self.sw["max_live"]):
                 return self._alloc(w)
@@ -175,6 +199,9 @@ class GenSource:
         al = w.alignment(b, aligned)
         mx = self.sw["max_size"]
         r = rng.random()
+        if self.sw.get("large"):
+            size = rng.choice([4096, 32768, 65535, 65536, 65536, 65537, 131072, 131072, 131073, 100000, 196608])
+            return {"op": "alloc", "buf": b, "size": size, "align": aligned, "fill": rng.getrandbits(31)}
         if r < 0.25 and m.free:
             # exact fill of some free range (first or random)
             s, e = m.free[0] if rng.random() < 0.5 else rng.choice(m.free)
@@ -227,6 +254,10 @@ class GenSource:
         if reg.size == 0:
             return 0, 0
         r = rng.random()
+        if self.sw.get("large") and r < 0.5:
+            ln = rng.choice([x for x in (4096, 65535, 65536, 65537, 131072, reg.size) if x <= reg.size])
+            sub = rng.choice([0, 0, reg.size - ln])
+            return sub, ln
         if r < 0.25:
             return 0, reg.size
         sub = rng.randrange(reg.size)
@@ -250,6 +281,8 @@ class GenSource:
             op["src"] = src
             ssub, sln = self._span(w, src)
             op["ssub"] = ssub
+            if self.sw.get("large") and rng.random() < 0.7:
+                op["ssub"] = ssub = 0
             op["len"] = min(ln, w.regions[src].size - ssub)
         elif prim == "from_nplike":
             op["dtype"] = rng.choice(DTYPES)
